@@ -51,6 +51,27 @@ def prove_paths(ctx, paths, goal, pre=(), timeout=None, twin=None):
             if r.status != 'unsat': return ('unknown', '%s: %s' % (lab, r.info))
     return ('unsat', '%d queries; %s' % (nq, ' '.join(infos[:6])))
 
+def compare_constants(w, fname, lo=5, hi=1 << 20, depth=2):
+    """integer constants that the function (and its callees up to `depth`) compares a value with: candidate size/length thresholds.
+       Used to add size classes on both sides of every threshold present in the code under test (the bound follows the code)."""
+    out = set(); seen = set(); todo = [(fname, 0)]
+    while todo:
+        fn, d = todo.pop()
+        if fn in seen or fn not in w.funcs: continue
+        seen.add(fn); f = w.funcs[fn]
+        for lab in f.order:
+            for ins in f.blocks[lab]:
+                if ins.op == 'icmp':
+                    for v in (ins.a, ins.b):
+                        if isinstance(v, tuple) and v[0] == 'int' and lo <= v[1] <= hi: out.add(v[1])
+                elif ins.op == 'switch':
+                    for (ct, cv), _ in ins.cases:
+                        if isinstance(cv, tuple) and cv[0] == 'int' and lo <= cv[1] <= hi: out.add(cv[1])
+                elif ins.op in ('call', 'invoke') and d < depth:
+                    cal = getattr(ins, 'callee', None)
+                    if isinstance(cal, tuple) and cal[0] == 'global': todo.append((cal[1], d + 1))
+    return sorted(out)
+
 def ncall(ctx, cfg, fn, args, restype=None):
     f = core.nfn(ctx.bdir, cfg, fn, restype)
     if f is None: return None
